@@ -276,6 +276,11 @@ public:
         auto remain_len = *varlen -
             std::distance(varlen_ptr, _buffer_ptr->cbegin() + num_read);
 
+        // CONNACK/AUTH shorter than the bytes already read is malformed
+        // (and a negative length must never reach asio::buffer)
+        if (remain_len < 0)
+            return do_shutdown(client::error::malformed_packet);
+
         if (num_read + remain_len > _buffer_ptr->size())
             _buffer_ptr->resize(num_read + remain_len);
 
